@@ -268,6 +268,8 @@ def _mk_endpoint_classes():
             self.gates = None  # scheduler gates for C14
             self.raise_filter = None  # callable(msg) -> bool: on_message raises after recording the delivery
             self.send_on_state = None  # state name: the application sends an order from on_state_change(that state)
+            self.raise_on_state = None  # set of state names: on_state_change(that state) raises (failing application callback)
+            self.send_on_disconnect = False  # the application tries to send an order from on_disconnect
 
         async def _gate(self, name):
             g = self.gates
@@ -295,6 +297,12 @@ def _mk_endpoint_classes():
         async def on_disconnect(self):
             self.n_disconnect += 1
             self.ev.append(("disconnect",))
+            if self.send_on_disconnect:
+                try:
+                    await self.send_msg(FIXMessage("D", {11: "fromdisc", 55: "X"}))
+                    self.ev.append(("disc_send", "accepted"))
+                except Exception as e:  # noqa
+                    self.ev.append(("disc_send", type(e).__name__))
 
         async def on_logon(self, is_healthy):
             self.n_logon += 1
@@ -314,6 +322,8 @@ def _mk_endpoint_classes():
                     self.ev.append(("hook_send", "accepted"))
                 except Exception as e:  # noqa
                     self.ev.append(("hook_send", type(e).__name__))
+            if self.raise_on_state and st.name in self.raise_on_state:
+                raise RuntimeError("application state callback failed")
 
         async def should_replay(self, m):
             await self._gate("should_replay")
